@@ -13,7 +13,7 @@ RULE = ('histories = every sequence of override / remove / add operations up to 
         'potable command line (-e/-r/-a, one value per occurrence and several values per occurrence), in lock-step with the reference: the '
         'same edits applied to the ordered text model, whose rendering is parsed/tabulated by the same implementation; observations: '
         'configuration-error vs success, parsed lists, output bytes, --list-items / --list-item-labels / --item-value')
-RULE += "; third file: embedding-only EAM model with an empty [Pair] header; values containing ':' then '=', placeholders, two lines, blanks around them, '' (empty); pin-then-override-the-variable sequences; sequences of 4-5 overrides over three items and of 2-4 same-valued overrides (three groupings); tuple / generator arguments; sections the listing must show once ([Table-Form : t2], [Pair:disabled], [Notes]); malformed items (no '=', no ':', unknown item for --item-value, stray '$'); the manual's options-first argument order (known finding F33); fourth file: an ADP model whose dipole / quadrupole entries are edited and listed; a variable whose placeholder is glued to other text, overridden with a blank-padded value"
+RULE += "; third file: embedding-only EAM model with an empty [Pair] header; values containing ':' then '=', placeholders, two lines, blanks around them, '' (empty); pin-then-override-the-variable sequences; sequences of 4-5 overrides over three items and of 2-4 same-valued overrides (three groupings); tuple / generator arguments; sections the listing must show once ([Table-Form : t2], [Pair:disabled], [Notes]); malformed items (no '=', no ':', unknown item for --item-value, stray '$'); the manual's options-first argument order (known finding F33); fourth file: an ADP model whose dipole / quadrupole entries are edited and listed; a variable whose placeholder is glued to other text, overridden with a blank-padded value; one item removed twice under two blank-spellings of its key (12 ordered pairs, separate and grouped options)"
 ASSUMPTIONS = [
     'ConfigParser(overrides=, additional=) applies the override list in order (value None = removal) and then the additions: the reference applies the edits in that order and is rejected at the first edit that hand editing could not perform',
     'command line: options of one kind are applied in the order typed, overrides and removals before additions; exact repetitions of one removal are outside the alphabet (the de-duplication of identical options is not specified)',
@@ -145,6 +145,10 @@ def cases(tier):
             for grouped in (False, True, 'split'):
                 out.append(dict(route='cli', file='pair', ops=[list(o) for o in seq], grouped=grouped, light=True))
             out.append(dict(route='api', file='pair', ops=[list(o) for o in seq], light=True))
+    # one item removed twice under two blank-spellings of its key: after the first removal nothing is left for the second (as when it names any absent item)
+    for a, b in itertools.permutations(['U-O', 'U - O', 'U -O', ' U-O'], 2):
+        for grouped in (False, True):
+            out.append(dict(route='cli', file='pair', ops=[['X', 'Pair', a], ['X', 'Pair', b]], grouped=grouped, light=True))
     # the API accepts any iterable of override tuples
     for fname in FILES:
         for h in hist.histories(alphabet(fname), 2, valid_api):
